@@ -110,6 +110,42 @@ example : enforceTcAndDag [(1, ({ parents := [2], indirect := [] } : Node Nat)),
 example : enforceTcAndDag [(1, ({ parents := [2], indirect := [1] } : Node Nat)),
     (2, { parents := [1], indirect := [2] })] = .error .cycle := by rfl
 
+/-! ### the contract standing for `compute_tc` -/
+
+/-- DESIGN's `closure_correct`, full statement: on a map with unique keys, `closure` succeeds iff the
+    out-edge graph is acyclic, the result has the same records/parents and its ancestor listing is Reach⁺
+    over the input's out-edges; otherwise it reports `cycle` (never `fuel`). -/
+def ClosureCorrectFull (α : Type) [DecidableEq α] : Prop :=
+  ∀ (s : Store α), (keys s).Nodup →
+    ((∀ x, ¬ Reach (outShape s) x x) → ∃ s', closure s = .ok s' ∧ TC.Ext s s' ∧ Exact (outShape s) s') ∧
+    ((∃ x, Reach (outShape s) x x) → closure s = .error .cycle)
+
+/-- proved part of `ClosureCorrectFull`: whatever `closure` returns is transitively closed and has no
+    self-edge (hence, by `enforce_reach`, its ancestor listing is Reach⁺ over its own out-edges and it is
+    acyclic). MISSING: the relation to the input (same records, only justified edges added), that a cyclic
+    input is reported as `cycle`, and that `Err.fuel` is unreachable. `closure` is a stand-in for the SCC
+    algorithm `cyclic_tc`, which is not mirrored; `from_entities` is compared with the implementation on
+    every generated history (all 729 parent graphs on ≤ 3 uids). -/
+theorem closure_correct_partial (s s' : Store α) (h : closure s = .ok s') : TClosed s' ∧ NoSelf s' := by
+  unfold closure at h
+  simp only at h
+  split at h
+  · rename_i hst
+    split at h
+    · rename_i hd
+      cases h
+      apply (enforce_exact _).mp
+      unfold enforceTcAndDag
+      unfold stable at hst
+      simp [hst, hd]
+    · cases h
+  · cases h
+
+example : (closure [(0, ({ parents := [1], indirect := [] } : Node Nat)), (1, { parents := [2], indirect := [] }),
+    (2, { parents := [], indirect := [] })]).toOption.map (fun s => ancestors s 0) = some [1, 2] := by decide
+example : closure [(0, ({ parents := [1], indirect := [] } : Node Nat)), (1, { parents := [2], indirect := [] }),
+    (2, { parents := [0], indirect := [] })] = .error .cycle := by rfl
+
 /-! ### `repair_tc` -/
 
 /-- DESIGN's `repair_correct`, full statement: given justified edges and complete untouched nodes,
@@ -320,16 +356,88 @@ def OpPreserves (α : Type) [DecidableEq α] : Prop :=
 def HistoryInvFull (α : Type) [DecidableEq α] : Prop :=
   ∀ ops : List (Op α), (∀ o, o ∈ ops → PureOp o) → Inv (runOps [] ops)
 
+/-- residual 1 (completeness of cycle detection): an accepted add/upsert has an acyclic parent graph -/
+def AcceptedAcyclic (α : Type) [DecidableEq α] : Prop :=
+  ∀ (s : Store α) (o : Op α) (s' : Store α), Inv s → PureOp o → applyOp s o = .ok s' →
+    ∀ x, ¬ Reach (shape s') x x
+
+/-- residual 2: upsert batches that do not consist of exactly one entity -/
+def UpsertMultiPreserves (α : Type) [DecidableEq α] : Prop :=
+  ∀ (s : Store α) (es : List (α × Node α)) (s' : Store α), Inv s → PureBatch es → es.length ≠ 1 →
+    upsertEntities .compute s es = .ok s' → Inv s'
+
+/-- residual 3: the contract of `compute_tc` inside `from_entities` (SCC internals not mirrored) -/
+def FromPreserves (α : Type) [DecidableEq α] : Prop :=
+  ∀ (es : List (α × Node α)) (s' : Store α), PureBatch es → fromEntities .compute es = .ok s' → Inv s'
+
 theorem inv_empty : Inv ([] : Store α) :=
   ⟨fun x n h => by simp [TC.get] at h, fun x hr => by
     obtain ⟨ps, hps⟩ := hr.src_some
     simp [shape, TC.get] at hps, fun x n h => by simp [TC.get] at h⟩
 
-/-- the induction over operation lists is proved; it reduces `HistoryInvFull` to the per-operation
-    obligations `OpPreserves`. MISSING for `OpPreserves`: "accepted ⇒ acyclic result" (completeness of cycle
-    detection, see `repair_correct_partial`) for add/upsert/remove, the contract of `compute_tc`, and
-    multi-entity upsert batches. -/
-theorem history_inv_partial (h : OpPreserves α) : HistoryInvFull α := by
+theorem shape_of_pg {s s' : Store α} (h : parentGraph s' = parentGraph s) : shape s' = shape s := by
+  funext x; rw [← pg_get, ← pg_get, h]
+
+/-- the per-operation obligations follow from the proved operation theorems and the three residuals -/
+theorem op_preserves_partial (h1 : AcceptedAcyclic α) (h2 : UpsertMultiPreserves α) (h3 : FromPreserves α) :
+    OpPreserves α := by
+  intro s o s' hinv hp hok
+  cases o with
+  | «from» m es =>
+    obtain ⟨rfl, hpb⟩ := hp
+    exact h3 es s' hpb hok
+  | remove m us =>
+    have hm : m = .compute := hp
+    subst hm
+    obtain ⟨s'', h', hi, _⟩ := remove_inv s us hinv
+    simp only [applyOp] at hok
+    rw [h'] at hok; cases hok; exact hi
+  | add m es =>
+    obtain ⟨rfl, hpb⟩ := hp
+    have hac := h1 s (.add .compute es) s' hinv ⟨rfl, hpb⟩ hok
+    simp only [applyOp] at hok
+    cases hl : addLoop s [] es with
+    | error e => simp [addEntities, hl] at hok
+    | ok st =>
+      obtain ⟨s1, t⟩ := st
+      have hrep : repairTc (touchPass s1 t) s1 = .ok s' := by
+        simpa [addEntities, hl, finish] using hok
+      have hsh := shape_of_pg (repairTc_pg hrep)
+      obtain ⟨s'', h', hi, _⟩ := addEntities_ok s es hinv hpb s1 t hl (hsh ▸ hac)
+      rw [h'] at hok; cases hok; exact hi
+  | upsert m es =>
+    obtain ⟨rfl, hpb⟩ := hp
+    have hac := h1 s (.upsert .compute es) s' hinv ⟨rfl, hpb⟩ hok
+    simp only [applyOp] at hok
+    by_cases hlen : es.length = 1
+    · match es, hlen with
+      | [e], _ =>
+        have hpure : e.2.indirect = [] := hpb e List.mem_cons_self
+        have hrep : repairTc (touchPass (upsertOne (s, []) e).1 (upsertOne (s, []) e).2) (upsertOne (s, []) e).1 = .ok s' := by
+          simpa [upsertEntities, finish] using hok
+        have hsh := shape_of_pg (repairTc_pg hrep)
+        have hspec : parentGraph (upsertOne (s, []) e).1 = specUpsert (parentGraph s) [e] := by
+          cases hold : TC.get s e.1 with
+          | some old => exact (upsert_single_pre s e hinv hpure old hold).2.2.2
+          | none =>
+            have : PGraph.get (parentGraph s) e.1 = none := by rw [pg_get]; simp [shape, hold]
+            have happ : parentGraph (s ++ [e]) = parentGraph s ++ [(e.1, e.2.parents)] := by simp [parentGraph]
+            simp only [upsertOne, hold, specUpsert, this]
+            exact happ
+        have hacs : Acyclic (specUpsert (parentGraph s) [e]) := by
+          rw [← hspec]; exact (acyclic_pg _).mpr (hsh ▸ hac)
+        obtain ⟨s'', h', hi, _⟩ := (upsert_inv_partial s e hinv hpure).1 hacs
+        rw [h'] at hok; cases hok; exact hi
+    · exact h2 s es s' hinv hpb hlen hok
+
+/-- `history_inv`: the induction over arbitrary operation lists is proved; with the operation theorems
+    (`add_inv_partial`, `remove_inv`, `upsert_inv_partial`) it reduces `HistoryInvFull` to three named
+    residuals. MISSING: `AcceptedAcyclic` (completeness of the cycle detection, see
+    `repair_correct_partial`), `UpsertMultiPreserves` (multi-entity upsert batches), `FromPreserves`
+    (contract of `compute_tc`); all three are exercised by the correspondence (exhaustive on ≤ 3 uids). -/
+theorem history_inv_partial (h1 : AcceptedAcyclic α) (h2 : UpsertMultiPreserves α) (h3 : FromPreserves α) :
+    HistoryInvFull α := by
+  have h := op_preserves_partial h1 h2 h3
   intro ops
   have gen : ∀ (ops : List (Op α)) (s : Store α), Inv s → (∀ o, o ∈ ops → PureOp o) → Inv (runOps s ops) := by
     intro ops
@@ -345,5 +453,13 @@ theorem history_inv_partial (h : OpPreserves α) : HistoryInvFull α := by
         | ok s' => exact h s o s' hs (hp o List.mem_cons_self) ha
       · exact fun o' ho' => hp o' (List.mem_cons_of_mem _ ho')
   exact gen ops [] inv_empty
+
+/-- in every state reached by a history of pure operations, `e in a` is reflexive parent-reachability
+    (given the residuals of `history_inv_partial`) -/
+theorem in_iff_reach_history (h1 : AcceptedAcyclic EntityUID) (h2 : UpsertMultiPreserves EntityUID)
+    (h3 : FromPreserves EntityUID) (ops : List (Op EntityUID)) (hp : ∀ o, o ∈ ops → PureOp o)
+    (e a : EntityUID) :
+    inE (toEntities (runOps [] ops)) e a = true ↔ a = e ∨ Reach (shape (runOps [] ops)) e a :=
+  in_iff_reach _ (history_inv_partial h1 h2 h3 ops hp) e a
 
 end Cedar.C04
